@@ -3,9 +3,10 @@ sizes, grids (per-direction spacing, extra coords, meshgrid on/off), shape_to_sp
 import itertools
 import random
 import numpy as np
-from . import core
+from . import core, pylite_tie
 from .core import Case, cZ, cD, clist, cbool, copt
 
+obligations = pylite_tie.coord_obligations   # source-regenerated tie (see harness/pylite_tie.py)
 ID = "C07"
 PROPS_FILE = "Props/C07.v"
 IMPORTS = "From Verde Require Import Model.Coordinates Model.CoordCases."
